@@ -50,40 +50,41 @@ def _unhex(s):
 
 
 def split_args(s):
-    """Split a strace argument list (strings are pure \\xNN sequences because of -xx)."""
-    out, cur, depth, instr = [], [], 0, False
-    for ch in s:
-        if instr:
-            cur.append(ch)
-            if ch == '"':
-                instr = False
+    """Split a strace argument list. Strings are pure \\xNN sequences because of -xx (no quote, comma or bracket
+    inside), so the text is cut at the quotes first and only the short parts outside strings are scanned
+    character by character (a write of a 16 MiB index.json is one 64 MB argument)."""
+    out, cur, depth = [], [], 0
+    parts = s.split('"')
+    for i, part in enumerate(parts):
+        if i % 2 == 1:
+            cur.append('"' + part + '"')
             continue
-        if ch == '"':
-            instr = True
-            cur.append(ch)
-        elif ch in "([{":
-            depth += 1
-            cur.append(ch)
-        elif ch in ")]}":
-            depth -= 1
-            cur.append(ch)
-        elif ch == "," and depth == 0:
-            out.append("".join(cur).strip())
-            cur = []
-        else:
-            cur.append(ch)
+        for ch in part:
+            if ch in "([{":
+                depth += 1
+                cur.append(ch)
+            elif ch in ")]}":
+                depth -= 1
+                cur.append(ch)
+            elif ch == "," and depth == 0:
+                out.append("".join(cur).strip())
+                cur = []
+            else:
+                cur.append(ch)
     if cur:
         out.append("".join(cur).strip())
     return out
 
 
 def arg_bytes(a):
-    m = re.match(r'^"((?:\\x[0-9a-f]{2})*)"(\.\.\.)?$', a)
-    if not m:
-        raise vlib.ToolError("cannot parse strace string argument: %r" % a[:80])
-    if m.group(2):
+    if a.endswith('"...'):
         raise vlib.ToolError("strace truncated a string (raise -s)")
-    return _unhex(m.group(1))
+    if len(a) < 2 or a[0] != '"' or a[-1] != '"':
+        raise vlib.ToolError("cannot parse strace string argument: %r" % a[:80])
+    try:
+        return _unhex(a[1:-1])
+    except ValueError:
+        raise vlib.ToolError("cannot parse strace string argument: %r" % a[:80])
 
 
 def parse_strace(fn):
@@ -669,7 +670,7 @@ def _sh(argv, timeout=300, **kw):
 
 
 def strace_argv(out, inject=None):
-    a = ["strace", "-f", "-xx", "-s", "1000000", "-e", "trace=" + TRACE_SET]
+    a = ["strace", "-f", "-xx", "-s", "34000000", "-e", "trace=" + TRACE_SET]
     if inject:
         a += ["-e", "inject=%s:signal=KILL:when=%d" % inject]
     return a + ["-o", out]
